@@ -4,9 +4,9 @@ import atexit, contextlib, io, json, logging, shutil, tempfile
 from pathlib import Path
 from ..tlc import WORK
 
-SCRIPT = ('c={ctl}/{name}; n=$(cat $c.count 2>/dev/null || echo 0); n=$((n+1)); echo $n > $c.count; '
-          'o=$(sed -n ${{n}}p $c.script); if [ -z "$o" ]; then o=$(tail -n 1 $c.script); fi; echo r-{ver}; '
-          'case $o in ok) echo r-{ver} > out.txt;; omit) ;; killed) echo r-{ver} > out.txt; kill -9 $$;; *) exit 3;; esac')
+SCRIPT = ('c={ctl}/{name}; n=$(cat $c.count 2>/dev/null || echo 0); n=$((n+1)); echo $n > $c.count; {getver}; '
+          'o=$(sed -n ${{n}}p $c.script); if [ -z "$o" ]; then o=$(tail -n 1 $c.script); fi; echo r-$v; '
+          'case $o in ok) echo r-$v > out.txt;; omit) ;; killed) echo r-$v > out.txt; kill -9 $$;; *) exit 3;; esac')
 
 
 def make_jobs(ctl):
@@ -20,9 +20,13 @@ def make_jobs(ctl):
 
         @Job(return_files=("out.txt",)).prep
         def calc(self, obj, ver):
-            cmd = "sh -c '" + SCRIPT.format(ctl=ctl, name=obj, ver=ver) + "'"
+            # the job argument (the version) reaches the program on the command line for some items and ONLY through an
+            # input file for the others: a changed argument is a different input either way
+            via_file = str(obj)[-1] in "24680"
+            cmd = "sh -c '" + SCRIPT.format(ctl=ctl, name=obj, getver="v=$(cat ver.txt)" if via_file else f"v={ver}") + "'"
             # a second command that always succeeds: a failure of the first one must stop the job
-            return JobInput(jid=str(obj), commands=[(cmd, "main"), ("sh -c 'exit 0'", None)], files={"note.txt": b"x"},
+            return JobInput(jid=str(obj), commands=[(cmd, "main"), ("sh -c 'exit 0'", None)],
+                            files={"note.txt": b"x", "ver.txt": str(ver) if via_file else "-"},
                             return_files=self.return_files)
 
         @calc.post
